@@ -136,7 +136,7 @@ def run(chk):
                 d = dict(c)
                 d["perm"] = p
                 cases.append(d)
-        res = vlib.run_cases(binary, cases, tmo=60, shards=max(1, min(6, 12 // nr)), wrapper=MPIRUN + [str(nr)])
+        res = vlib.run_cases(binary, cases, tmo=20, max_abnormal=6, shards=max(1, min(6, 12 // nr)), wrapper=MPIRUN + [str(nr)])
         vlib.judge_results(chk, cases, res, sig, harness="c13_synch",
                            keyf=lambda c: json.dumps([c["nr"], c["dofs"], c["perm"]], sort_keys=True),
                            nontrivial=lambda c: c["nr"] >= 2 and any(x >= 2 for v in c["count"].values() for x in v))
